@@ -104,7 +104,7 @@ pub fn spaces<'a>(prop: &'a str, thorough: bool, deadline: Instant, threads: usi
     };
     match prop {
         "C01" | "C02" | "C10" => {
-            let depth = if thorough { 4 } else { 3 };
+            let depth = if thorough { 5 } else { 4 };
             vec![mk(
                 base_alphabet(),
                 depth,
